@@ -28,9 +28,9 @@ class Theme:
     times = [datetime(2021, 3, 1, 0, 0, 0, tzinfo=timezone.utc) + timedelta(hours=h) for h in range(400)]
     meas = ["0m", "a", "ab", "b", "ba", "c"] + ["d%03d" % i for i in range(300)]
     strs = ["0", "a", "ab", "b", "ba", "c"] + ["d%03d" % i for i in range(300)]
-    nums = [-1.5, 0, 1, 2, 2.5, 10] + [11.25 + 3 * i for i in range(300)]
-    tagkeys = ["k1", "k2", "k3"]          # spec key i  -> tagkeys[i-1]
-    fieldkeys = ["f1", "f2", "f3"]
+    nums = [-2, -1, 0, 1, 2.5, 10] + [11.25 + 3 * i for i in range(300)]     # hash(-2) == hash(-1) in CPython; 0 == False, 1 == True
+    tagkeys = ["k", "k_1", "k_1_x"]       # spec key i  -> tagkeys[i-1]; each a substring of the next, with underscores
+    fieldkeys = ["f", "f_1", "f_1_x"]
     regex = True                            # theme realises the regex tables
 
     def __init__(self):
